@@ -294,7 +294,7 @@ theorem deleted_refines (parts : String → Nat) (cfg : Metadata.Cfg)
         intro c hc'
         simp only [Function.comp]
         by_cases hid : c.id ∈ ids
-        · simp [hid, Cons.removeStreamAssignments]
+        · simp [hid, dropStream_id, dropStream_streams]
         · simp only [hid, if_false]
           congr 1
           rw [List.filter_eq_self]
